@@ -11,6 +11,16 @@ REPO = os.environ.get('VERIF_REPO', '/repo')
 PY = os.environ.get('VERIF_PYTHON', '/venv/bin/python')
 
 
+def merged_raises(contract):
+    """exceptional postconditions plus the clauses stated against the real code only
+    (ghost `concrete_raises`: {exception name: [clauses]})"""
+    rz = {k: dict(v) for k, v in contract.raises.items()}
+    for en, clauses in contract.ghost.get('concrete_raises', {}).items():
+        spec = rz.setdefault(en, {})
+        spec['ensures'] = list(spec.get('ensures', [])) + list(clauses)
+    return rz
+
+
 def job_for(contract, mode, inputs=None):
     job = {
         'repo': REPO, 'verif': VERIF, 'target': contract.target, 'mode': mode,
@@ -18,7 +28,7 @@ def job_for(contract, mode, inputs=None):
         # clauses stated against an independent executable specification: evaluated on the real code
         # only (the symbolic side cannot run the specification)
         'ensures': list(contract.ensures) + list(contract.ghost.get('concrete_ensures', [])),
-        'raises': contract.raises,
+        'raises': merged_raises(contract),
         'spec_modules': contract.ghost.get('spec_modules', ['spec.core', 'spec.repeat']),
         'search': contract.ghost.get('search', {}),
     }
